@@ -117,6 +117,7 @@ type compiler struct {
 	todo_error_string          *ir.Global
 	bad_cast_error_string      *ir.Global
 	invalid_utf8_error_string  *ir.Global
+	modulo_zero_error_string   *ir.Global
 
 	curLeaveBlock    *ir.Block // leave block of the current loop
 	curContinueBlock *ir.Block // block where a continue should jump to
@@ -334,6 +335,7 @@ func (c *compiler) setupErrorStrings() {
 	c.todo_error_string = createErrorString("Zeile %lld, Spalte %lld: Dieser Teil des Programms wurde noch nicht implementiert\n")
 	c.bad_cast_error_string = createErrorString("Zeile %lld, Spalte %lld: Falsche Typumwandlung")
 	c.invalid_utf8_error_string = createErrorString("Zeile %lld, Spalte %lld: Invalider UTF8 Wert im Text")
+	c.modulo_zero_error_string = createErrorString("Zeile %lld, Spalte %lld: Der Rest einer Division durch 0 ist nicht definiert\n")
 }
 
 // used in setup()
@@ -1429,11 +1431,24 @@ func (c *compiler) VisitBinaryExpr(e *ast.BinaryExpr) ast.VisitResult {
 			c.latestReturn = c.cbb.NewXor(lhs, rhs)
 		}
 	case ast.BIN_MOD:
-		if lhsTyp == c.ddpbytetyp && rhsTyp == c.ddpbytetyp {
+		bothBytes := lhsTyp == c.ddpbytetyp && rhsTyp == c.ddpbytetyp
+		var zeroDivisor value.Value = zero8
+		if !bothBytes {
+			lhs, rhs = c.floatOrByteAsInt(lhs, lhsTyp), c.floatOrByteAsInt(rhs, rhsTyp)
+			zeroDivisor = zero
+		}
+		// the remainder of a division by zero is not defined (the instruction would trap or yield garbage)
+		c.createIfElse(c.cbb.NewICmp(enum.IPredEQ, rhs, zeroDivisor), func() {
+			line, column := int64(e.Token().Range.Start.Line), int64(e.Token().Range.Start.Column)
+			c.runtime_error(1, c.modulo_zero_error_string, newInt(line), newInt(column))
+		}, nil)
+		if bothBytes {
 			c.latestReturn = c.cbb.NewURem(lhs, rhs)
 			c.latestReturnType = c.ddpbytetyp
 		} else {
-			c.latestReturn = c.cbb.NewSRem(c.floatOrByteAsInt(lhs, lhsTyp), c.floatOrByteAsInt(rhs, rhsTyp))
+			// every Zahl modulo -1 is 0, but the instruction overflows for the smallest Zahl: divide by 1 instead
+			divisor := c.cbb.NewSelect(c.cbb.NewICmp(enum.IPredEQ, rhs, newInt(-1)), newInt(1), rhs)
+			c.latestReturn = c.cbb.NewSRem(lhs, divisor)
 			c.latestReturnType = c.ddpinttyp
 		}
 	case ast.BIN_LEFT_SHIFT:
